@@ -31,6 +31,7 @@ def _pool_from_ids(ids: list[str]) -> list[str]:
         next((i for i in ids if i.startswith("sonar:")), None),
         next((i for i in ids if i.startswith("semgrep:")), None),
         "pixee:python/does-not-exist",
+        "",  # a blank entry (`--codemod-include ""`, the piece a trailing comma leaves): names nothing, the list is still given
         "pixee:python/url",  # proper prefix of an id, no wildcard
         "pixee:python/url.sandbox",  # regex metacharacter, no wildcard
         "*",
@@ -53,7 +54,7 @@ def _pool_from_ids(ids: list[str]) -> list[str]:
     ]
     out = []
     for p in want:
-        if p and p not in out:
+        if p is not None and p not in out:
             out.append(p)
     return out
 
@@ -180,6 +181,8 @@ def run(chk: Check) -> None:
                     ("pixee:python/secure-*", "*sandbox", "pixee:python/secure-random")):
         if all(p_ in pool for p_ in (a, x, b)):
             forced.append(tuple(pool.index(p_) + 1 for p_ in (a, x, b)))
+    blank = pool.index("") + 1
+    forced += [(blank,), (blank, blank)]
     extra += forced
     cases, ids = _check_registry(chk, registry, "working-tree", pool, def_exc, 2, extra)
 
@@ -199,7 +202,7 @@ def run(chk: Check) -> None:
     by_inp = {}
     for sc, exp in modes:
         by_inp.setdefault((sc["inp"], len(sc["list"])), (sc, exp))
-    forced_cases = [(sc, exp) for sc, exp in cases if tuple(sc["list"]) in set(forced) and sc["kind"] == "inc"]
+    forced_cases = [(sc, exp) for sc, exp in cases if tuple(sc["list"]) in set(forced) and (sc["kind"] == "inc" or blank in sc["list"]) and sc["inp"] == "none"]
     chosen = cheap[:e2e_n] + list(by_inp.values()) + forced_cases
     scenarios = []
     for k, (sc, exp) in enumerate(chosen):
